@@ -22,12 +22,21 @@ Lean side (Properties/C04.lean): the byte-window contract of `GetOffsetStorage` 
 every window inside the buffer; the list-slice storage of the view model G is exactly that
 window), the byte orderers / BitBlock reads (all orderers since fix a39ac01), the range-checked
 virtual-field write (fix 1e1a793), and `C04_arith_no_overflow` (= builder `bounds`' C04Arith).
+
+Round 3, text layer: tie T — harness/translate/textbuf.py regenerates Generated/TextBuf.lean (size
+formula of the scratch array of `WriteIntegerToTextStream`, NUL index, first `next_char`) from
+$VERIF_REPO/runtime/cpp/emboss_text_util.h at the start of every run; `C04_text_buffer_in_bounds`
+is re-elaborated against it by the proof gate.  When that obligation breaks, `search` first runs a
+text-only probe on the real code (no model): every integer width at its extremes through
+`WriteToString` in bases 2/10/16 with and without digit grouping under ASan/UBSan with DCHECKs
+live; the DCHECK abort / sanitizer report is the failing input.
 """
 import collections
 import time
 import json
 
 from harness.lib import common, cppdrv, cpptypes, viewcorr
+from harness.translate import textbuf
 
 PROP = "C04"
 
@@ -143,8 +152,51 @@ def _run(chk, tier, model_ok=True):
     chk.extra["cases"] = [c.name for c in cases]
 
 
+TEXT_PROBE_TESTDATA = ("int_sizes.emb", "condition.emb")
+
+
+def _text_probe(chk):
+    """Text output on the real code, model-free: corpus modules (pinned `TXT` commands: the minimum
+    of every signed carrier type in base 2 with digit grouping) and testdata modules with every
+    integer width, `TXT` on boundary buffers (every fixed-position field at min / max / all-ones)
+    under every option set, sanitized build with EMBOSS_CHECK/DCHECK live."""
+    r = common.rng("C04-text-probe")
+    stats = collections.Counter()
+    cases, _dist = viewcorr.make_cases(chk, r, 0, corpus_prop=PROP, testdata=TEXT_PROBE_TESTDATA)
+    failed = viewcorr.build_cases(cases, features=("txt",), workers=4, std="c++14", compiler="g++", opt="-O0")
+    for c in failed:
+        raise common.InfraError("text driver of %s does not compile: %s" % (c.name, c.build_log[-1500:]))
+    for case in cases:
+        cmds = viewcorr.pinned_commands(case, ("TXT",))
+        cmds += [c for c in viewcorr.text_commands(r, case, "quick", cap=64) if c.startswith("TXT ")]
+
+        def on_crash(cmd, rr, case=case):
+            key = viewcorr.crash_key(rr, cmd, case)
+            stats["crash:" + key] += 1
+            if len(chk.violations) < 12:
+                chk.violation("input", {"module": case.text, "case": case.name, "build": "g++ -std=c++14 -O0 (text probe)",
+                                        "command": cmd, "observed": "%s: %s" % (rr.kind, (rr.err or "")[:1500]),
+                                        "expected": "no sanitizer report, no EMBOSS_CHECK/DCHECK abort in text output "
+                                                    "(C04_text_buffer_in_bounds: every index of the scratch array of "
+                                                    "WriteIntegerToTextStream is inside it)"}, key=key)
+        answers = viewcorr.run_surviving(case, cmds, on_crash, max_crashes=6)
+        for c, a in zip(cmds, answers):
+            if a is not None:
+                chk.count()
+                stats["cmd_TXT"] += 1
+                chk.nontrivial((case.name, c.split()[1], "TXT", a[:12]))
+        if cmds:
+            chk.sample({"case": case.name, "build": "text probe", "command": cmds[0], "answer": (answers[0] or "crash")[:200]})
+    chk.extra["text_probe"] = dict(stats, cases=[c.name for c in cases])
+
+
 def search(chk):
     before = len(chk.violations)
+    if any("TextBuf" in m for m in chk.failed_modules()) or "TextBuf" in " ".join(chk.first_errors()):
+        # the text-buffer obligation is (among) what broke: look there first, stop when a failing input is found
+        _text_probe(chk)
+        if len(chk.violations) > before:
+            return len(chk.violations) - before
     _run(chk, "quick", model_ok=False)
     return len(chk.violations) - before
 
@@ -155,8 +207,16 @@ def run(tier):
                        "driver; non-trivial = distinct (case, structure, command kind, answer prefix)")
     chk.trusted += ["ASan/UBSan (g++ 12, clang++ 14) as the oracle for out-of-bounds accesses and UB; what they do "
                     "not instrument (out-of-range pointer formation, aliasing) is not observed",
-                    "harness/lib/cpptypes.py (IR walk + header regex of the carrier-type tie)"]
+                    "harness/lib/cpptypes.py (IR walk + header regex of the carrier-type tie)",
+                    "harness/translate/textbuf.py (regex over WriteIntegerToTextStream: size formula, NUL index, first "
+                    "next_char); CHAR_BIT = 8; the correspondence writeInt = real WriteIntegerToTextStream is C06's"]
     chk.assumptions.append("real memory safety is claimed only as far as the sanitizers observe it (level partial)")
+    # tie T (text layer): size formula / offsets of WriteIntegerToTextStream's scratch array from the header text
+    tb, why, changed = textbuf.regenerate()
+    chk.extra["textbuf_table"] = {"parsed": tb is not None, "reason": why, "regenerated_file_changed": changed,
+                                  "formula": tb and "bits * %(mul)d / %(div)d + %(add)d" % tb,
+                                  "nul_index": tb and "size - %(nul_back)d" % tb,
+                                  "first_next_char": tb and "size - %(first_back)d" % tb}
     model_ok = common.proof_gate(chk, search)
     if model_ok:
         _run(chk, tier)
